@@ -1,8 +1,11 @@
 (** C12 — finite check of the degenerate-codon specification, include_stop = True
-    (split over two files so that they build in parallel; every code x 15^3 codons of IUPAC symbols). *)
+    (split over two files so that they build in parallel). *)
 From CG3 Require Import Lib.PyZ Lib.Val Model.GeneticCode Spec.GeneticCodeSpec Proofs.GeneticCodeProofs
   Proofs.GeneticCodeDegenDefs.
 From CG3gen Require Import GCTables.
 
 Lemma degenerate_checked_true : forallb (degenerate_check true) new_codes = true.
+Proof. vm_cast_no_check (eq_refl true). Qed.
+
+Lemma degenerate_first_code_checked_true : degenerate_check_on (product3 iupac_syms) true first_code = true.
 Proof. vm_cast_no_check (eq_refl true). Qed.
